@@ -158,6 +158,8 @@ class _G:
         self.newcount = 0
         self.uses_meta = False
         self.uses_other = False
+        self.steps = []
+        self.final_only = False
 
     # ---- helpers
     def pick(self, seq):
@@ -193,8 +195,7 @@ class _G:
             x, kx = sub()
             form = r.random()
             if op == "**":
-                y, ky = ["lit", r.choice([2, 3, 0.5])], "float" if kx != "Int" else "Int"
-                ky = "float" if y[1] == 0.5 else kx
+                y = ["lit", r.choice([2, 3, 0.5])]
                 return self._binform(op, x, y, False), ("float" if y[1] == 0.5 and kx != "Int" else kx)
             if form < 0.45:
                 y = self.numlit()
@@ -242,7 +243,7 @@ class _G:
                 fn = self.pick(["f_inc", "f_sq", "f_half"])
                 out = SFUNCS[fn][1] or kx
                 self.uses_meta = True
-                return [self.pick(["map", "apply"]), x, {"func": fn}, DTYPE_OF[out]][:4] if True else None, out
+                return [self.pick(["map", "apply"]), x, {"func": fn}, DTYPE_OF[out]], out
             return ["un", "abs", x], kx
         if choice < 0.95:   # accessors giving ints
             for kind, mk in (("str", lambda c: ["str", "len", ["col", c], [], {}]),
@@ -445,7 +446,7 @@ class _G:
             k = leaf[1]
         else:
             ks = sorted(set(cols.values()) - {"obj"})
-            weights = {"int": 5, "float": 5, "Int": 2, "str": 4, "bool": 3, "dt": 3, "cat": 3, "boolean": 1}
+            weights = {"int": 5, "float": 5, "Int": 2, "str": 4, "bool": 3, "dt": 3, "cat": 3, "ucat": 3, "boolean": 1}
             k = self.pick([q for q in ks for _ in range(weights.get(q, 1))]) if ks else "int"
         w = r.random()
         if k in NUM:
@@ -469,7 +470,7 @@ class _G:
             if w < 0.65:
                 return ["str", "len", x, [], {}], "int", "str"
             if w < 0.75:
-                return ["astype", x, "category"], "cat", "astype"
+                return ["astype", x, "category"], "ucat", "astype"
             if w < 0.82:
                 return ["str", "split", x, [self.pick(["x", "y", "-"])], {}], "obj", "str"
             if w < 0.90:
@@ -519,6 +520,19 @@ class _G:
                 return ["astype", x, "str"], "str", "astype"
             e, kk = self.boolean(cols, 0, leaf)
             return e, kk, "cmp"
+        if k == "ucat":     # categories unknown to dask: only documented-safe operations
+            x = leaf[0] if leaf is not None else ["col", self.pick(self.by_kind(cols, "ucat"))]
+            if w < 0.3:
+                return ["catm", "as_known", x, []], "ucat", "cat"
+            if w < 0.55:
+                cats = self.pick([["x", "y", "z", "w", "xy"], ["y", "x", "other", "z", "w", "xy"], ["0", "1", "2", "3"],
+                                  ["x", "y"], [0, 1, 2, 3], [3, 1, 2, 0, -1]])
+                return ["catm", "set_categories", x, [cats]], "cat", "cat"
+            if w < 0.75:
+                return ["astype", x, "str"], "str", "astype"
+            if w < 0.9:
+                return ["isin", x, r.sample(["x", "y", 0, 1, "1", 2.0], 2)], "bool", "cmp"
+            return ["cmp", self.pick(["==", "!="]), x, ["lit", self.pick(["x", 1, "1"])]], "bool", "cmp"
         if k == "boolean":
             x = leaf[0] if leaf is not None else ["col", self.pick(self.by_kind(cols, "boolean"))]
             if w < 0.3:
@@ -555,21 +569,8 @@ class _G:
         n = self.r.randint(kmin, min(len(cs), 3))
         return self.r.sample(cs, n)
 
-    def step_frame(self):
-        r = self.r
-        cols = self.cols
-        table = [("project", 10), ("getcol", 5), ("filter", 16), ("assign", 18), ("frame_arith", 8), ("frame_cmp", 4),
-                 ("astype", 7), ("fillna", 6), ("where", 7), ("isin", 3), ("clip", 4), ("apply_rows", 4),
-                 ("rename", 6), ("other", 10 if self.other else 0)]
-        pool = [k for k, w in table for _ in range(w)]
-        for _ in range(20):
-            op = self.pick(pool)
-            st = getattr(self, "s_" + op)()
-            if st is not None:
-                return st
-        return self.s_project()
-
     def _commit(self, step, cols, klass, filt=False):
+        """record one emitted step together with the frame schema it produces"""
         self.cols = cols
         self.prist &= set(cols)
         if filt:
@@ -577,7 +578,39 @@ class _G:
             self.last_filter = len(self.schemas)
         self.schemas.append(dict(cols))
         self.classes.append(klass)
+        self.steps.append(step)
         return step
+
+    def _commit_series(self, step, klass, kind, prist=None, name=None, filt=False):
+        self.state = "series"
+        self.skind = kind
+        self.sprist = prist
+        self.sname = name
+        if filt:
+            self.filtered = True
+            self.last_filter = len(self.schemas)
+        self.schemas.append(None)
+        self.classes.append(klass)
+        self.steps.append(step)
+        return step
+
+    def _narrow(self, sel):
+        """explicit projection step in front of a whole-frame operation"""
+        if list(sel) != list(self.cols):
+            self._commit({"op": "project", "cols": list(sel)}, {c: self.cols[c] for c in sel}, "project:list")
+
+    def op_frame(self):
+        """one operation of the table on the current frame; emits 1-2 steps (an explicit projection in front of
+        whole-frame operations that only make sense on a typed sub-frame)"""
+        table = [("project", 10), ("getcol", 5), ("filter", 16), ("assign", 18), ("frame_arith", 8), ("frame_cmp", 4),
+                 ("astype", 7), ("fillna", 6), ("where", 7), ("isin", 3), ("clip", 4), ("apply_rows", 4),
+                 ("rename", 6), ("other", 14 if self.other else 0)]
+        pool = [k for k, w in table for _ in range(w)]
+        for _ in range(20):
+            op = self.pick(pool)
+            if getattr(self, "s_" + op)() is not None:
+                return
+        self.s_rename() or self.s_getcol()
 
     def s_project(self):
         names = list(self.cols)
@@ -591,25 +624,17 @@ class _G:
         c = self.pick(list(self.cols))
         if self.cols[c] == "obj":
             return None
-        self.state = "series"
-        self.skind = self.cols[c]
-        self.sprist = c if c in self.prist else None
-        self.sname = c
         st = {"op": "getcol", "col": c, "attr": bool(self.r.random() < 0.3 and c.isidentifier())}
-        self.schemas.append(None)
-        self.classes.append("project:single")
-        return st
+        return self._commit_series(st, "project:single", self.cols[c], c if c in self.prist else None, c)
 
     def s_filter(self):
         r = self.r
         # predicate evaluated on an earlier state with the same row set ("mask from another aligned series")
         at = len(self.schemas) - 1
         if r.random() < 0.3:
-            lo = self.last_filter
-            cands = [j for j in range(lo, at + 1) if self.schemas[j] is not None]
+            cands = [j for j in range(self.last_filter, at + 1) if self.schemas[j] is not None]
             at = self.pick(cands)
-        cols = self.schemas[at]
-        pred, _ = self.boolean(cols)
+        pred, _ = self.boolean(self.schemas[at])
         how = "getitem" if r.random() < 0.75 else "loc"
         klass = "filter:" + ("compound" if pred[0] in ("bin", "un") and pred[1] in ("&", "|", "^", "inv") else "simple")
         if at != len(self.schemas) - 1:
@@ -643,19 +668,17 @@ class _G:
                     at = self.pick(cands)
                     base = self.schemas[at]
                 if mode == "lambda" and items and r.random() < 0.5:
-                    base = cols     # pandas and dask evaluate callables on the frame with earlier kwargs applied
-                    if any(it[2] != "lambda" for it in items) and False:
-                        pass
+                    base = cols     # callables see the frame with the earlier keyword arguments applied (both libraries)
                 e, kind, kl = self.any_expr(base)
                 items.append([name, e, mode, at])
                 klass.append(kl)
+                klass.append(mode)
             cols[name] = kind
             self.prist.discard(name)
             klass.append("shadow" if shadow else "new")
         if not items:
             return None
-        # dask applies non-callable kwargs lazily in order; pandas too -> identical semantics
-        tags = sorted(set(klass))
+        tags = [t for t in ("shadow", "new", "lambda", "series") if t in klass]
         return self._commit({"op": "assign", "items": items}, cols, "assign:" + "+".join(tags))
 
     def s_frame_arith(self):
@@ -676,22 +699,20 @@ class _G:
             out = {c: self._numkind(op, k, "int" if isinstance(v, int) else "float") for c, k in cols.items()}
             style = self.pick(["operator", "method", "reversed", "rmethod"])
         elif w < 0.75:
-            sel2 = self.numcols()
+            sel2 = r.sample(sel, r.randint(1, len(sel)))
+            r.shuffle(sel2)
             rhs = {"kind": "frame", "cols": sel2}
-            names = sorted(set(sel) | set(sel2))
             out = {}
-            for c in names:
-                if c in sel and c in sel2:
-                    out[c] = self._numkind(op, self.cols[c], self.cols[c])
-                else:
-                    out[c] = "float"
+            for c in sorted(sel) if set(sel2) != set(sel) else sel:
+                out[c] = self._numkind(op, self.cols[c], self.cols[c]) if c in sel2 else "float"
             style = self.pick(["operator", "method"])
         else:
             e, k = self.num(self.cols, 1)
-            rhs = {"kind": "series", "expr": e}
+            rhs = {"kind": "series", "expr": e, "at": len(self.schemas) - 1}
             out = {c: self._numkind(op, kk, k) for c, kk in cols.items()}
             style = "method"
-        st = {"op": "frame_arith", "cols": sel, "binop": op, "rhs": rhs, "style": style}
+        self._narrow(sel)
+        st = {"op": "frame_arith", "binop": op, "rhs": rhs, "style": style}
         return self._commit(st, out, "frame-arith:%s:%s" % (rhs["kind"], style))
 
     def s_frame_cmp(self):
@@ -705,20 +726,28 @@ class _G:
             style = self.pick(["operator", "method"])
         elif w < 0.8:
             rhs = {"kind": "frame", "cols": list(sel)}    # identically-labelled frames only (pandas requirement)
-            self.r.shuffle(rhs["cols"])
-            style = "method"
+            style = self.pick(["operator", "method"])
         else:
             e, k = self.num(self.cols, 1)
-            rhs = {"kind": "series", "expr": e}
+            rhs = {"kind": "series", "expr": e, "at": len(self.schemas) - 1}
             style = "method"
-        out = {c: "bool" for c in (sel if rhs["kind"] != "frame" else sorted(sel) if False else sel)}
-        return self._commit({"op": "frame_cmp", "cols": sel, "cmpop": op, "rhs": rhs, "style": style}, out,
-                            "frame-cmp:%s" % rhs["kind"])
+        self._narrow(sel)
+        out = {c: "bool" for c in sel}
+        return self._commit({"op": "frame_cmp", "cmpop": op, "rhs": rhs, "style": style}, out,
+                            "frame-cmp:%s:%s" % (rhs["kind"], style))
 
     _ASTYPE = {"int": ["float64", "Int64", "str", "category", "bool", "int32"], "float": ["int64", "Int64", "str", "float32"],
                "bool": ["int64", "float64", "boolean", "str"], "str": ["category", "object"],
                "cat": ["str", "object"], "Int": ["float64", "int64", "str"], "boolean": ["bool", "float64", "Int64"],
                "dt": ["str", "datetime64[s]"]}
+
+    @staticmethod
+    def _kind_of_target(t):
+        if t == "category":
+            return "ucat"
+        if t == "str":
+            return "str"
+        return kind_of_dtype(pd.api.types.pandas_dtype(t))
 
     def s_astype(self):
         r = self.r
@@ -733,16 +762,18 @@ class _G:
             for c in sel:
                 t = self.pick(self._ASTYPE[cols[c]])
                 spec[c] = t
-                cols[c] = kind_of_dtype(pd.api.types.pandas_dtype(t)) if t not in ("category", "str") else ("cat" if t == "category" else "str")
+                cols[c] = self._kind_of_target(t)
                 self.prist.discard(c)
             kl = "astype:dict:" + "+".join(sorted({self._tkl(t) for t in spec.values()}))
-            return self._commit({"op": "astype", "spec": spec, "cols": None}, cols, kl)
+            return self._commit({"op": "astype", "spec": spec}, cols, kl)
         sel = self.numcols(kinds=("int", "float", "bool", "Int"))
         if not sel:
             return None
         t = self.pick(["float64", "str", "Int64", "int64", "category"])
-        out = {c: kind_of_dtype(pd.api.types.pandas_dtype(t)) if t not in ("category", "str") else ("cat" if t == "category" else "str") for c in sel}
-        return self._commit({"op": "astype", "spec": t, "cols": sel}, out, "astype:frame:" + self._tkl(t))
+        out = {c: self._kind_of_target(t) for c in sel}
+        self._narrow(sel)
+        self.prist = set()
+        return self._commit({"op": "astype", "spec": t}, out, "astype:frame:" + self._tkl(t))
 
     @staticmethod
     def _tkl(t):
@@ -751,7 +782,7 @@ class _G:
     def _fillval(self, kind):
         r = self.r
         return {"int": 0, "float": r.choice([0.0, -1.5, 7]), "Int": r.choice([0, 9]), "boolean": bool(r.getrandbits(1)),
-                "str": "?", "bool": False, "dt": None, "cat": "p"}.get(kind)
+                "str": "?", "bool": False, "cat": "p"}.get(kind)
 
     def s_fillna(self):
         r = self.r
@@ -762,13 +793,14 @@ class _G:
                 return None
             sel = r.sample(names, r.randint(1, min(3, len(names))))
             val = {c: self._fillval(self.cols[c]) for c in sel}
-            return self._commit({"op": "fillna", "value": val, "cols": None}, dict(self.cols), "fillna:dict")
+            return self._commit({"op": "fillna", "value": val}, dict(self.cols), "fillna:dict")
         sel = self.numcols(kinds=("int", "float", "Int"))
         if not sel:
             return None
         v = r.choice([0, 1, -1]) if any(self.cols[c] == "Int" for c in sel) else r.choice([0, 0.5, -1])
         out = {c: self.cols[c] for c in sel}
-        return self._commit({"op": "fillna", "value": v, "cols": sel}, out, "fillna:scalar")
+        self._narrow(sel)
+        return self._commit({"op": "fillna", "value": v}, out, "fillna:scalar")
 
     def s_where(self):
         r = self.r
@@ -776,12 +808,7 @@ class _G:
         if not sel:
             return None
         which = self.pick(["where", "mask"])
-        w = r.random()
-        if w < 0.5:
-            cond = {"kind": "frame_cmp", "op": self.pick(list(_CMP)), "v": r.choice([0, 1, 0.5])}
-        else:
-            e, _ = self.boolean(self.cols, 1)
-            cond = {"kind": "series", "expr": e}
+        cond = {"kind": "frame_cmp", "op": self.pick(list(_CMP)), "v": r.choice([0, 1, 0.5])}
         w = r.random()
         out = {c: self.cols[c] for c in sel}
         if w < 0.35:
@@ -795,10 +822,9 @@ class _G:
             v = r.choice([-1, 2, 0.5])
             other = {"kind": "frame_mul", "v": v}
             out = {c: self._numkind("+", k, "int" if isinstance(v, int) else "float") for c, k in out.items()}
-        if cond["kind"] == "series" and other["kind"] == "frame_mul" and False:
-            return None
-        return self._commit({"op": "where", "which": which, "cols": sel, "cond": cond, "other": other}, out,
-                            "%s:frame:cond-%s:other-%s" % (which, cond["kind"], other["kind"]))
+        self._narrow(sel)
+        return self._commit({"op": "where", "which": which, "cond": cond, "other": other}, out,
+                            "%s:frame:other-%s" % (which, other["kind"]))
 
     def s_isin(self):
         r = self.r
@@ -807,7 +833,8 @@ class _G:
             return None
         sel = r.sample(names, r.randint(1, min(3, len(names))))
         vals = r.sample([0, 1, 2, 3, -1.0, 2.0, "x", "y", "xy"], r.randint(1, 4))
-        return self._commit({"op": "isin", "cols": sel, "values": vals}, {c: "bool" for c in sel}, "isin:frame")
+        self._narrow(sel)
+        return self._commit({"op": "isin", "values": vals}, {c: "bool" for c in sel}, "isin:frame")
 
     def s_clip(self):
         sel = self.numcols(kinds=("int", "float"))
@@ -818,7 +845,8 @@ class _G:
         w = r.random()
         lo_, hi_ = (lo, hi) if w < 0.5 else ((lo, None) if w < 0.75 else (None, hi))
         out = {c: self.cols[c] for c in sel}
-        return self._commit({"op": "clip", "cols": sel, "lower": lo_, "upper": hi_}, out, "clip:frame")
+        self._narrow(sel)
+        return self._commit({"op": "clip", "lower": lo_, "upper": hi_}, out, "clip:frame")
 
     def s_apply_rows(self):
         r = self.r
@@ -828,28 +856,22 @@ class _G:
         if len(nums) >= 2 and w < 0.7:
             x, y = r.sample(nums, 2)
             if r.random() < 0.6:
-                fn, out = "r_add", self._numkind("+", self.cols[x], self.cols[y])
+                fn = "r_add"
+                out = self._numkind("+", self.cols[x], self.cols[y])
+                # a frame holding only numeric columns hands float rows to the function
+                if out == "int" and all(k in ("int", "float", "bool") for k in self.cols.values()) \
+                        and "float" in self.cols.values():
+                    out = "float"
             else:
                 fn, out = "r_gt", "bool"
         elif strs and nums:
             x, y = self.pick(strs), self.pick(nums)
             fn, out = "r_lab", "str"
-            if self.cols[y] == "float" or len(set(self.cols.values())) == 1:
-                return None    # number formatting of a float upcast row is pandas-internal; keep ints only
-            if any(k in ("float",) for k in self.cols.values()) and all(k in ("int", "float", "bool") for k in self.cols.values()):
-                return None    # an all-numeric frame upcasts the int to float inside the row Series
         else:
             return None
-        # a frame of int+float only upcasts rows to float: r_add on (int,int) then gives float in pandas as well
-        self.state = "series"
-        self.skind = out
-        self.sprist = None
-        self.sname = None
         self.uses_meta = True
-        self.schemas.append(None)
-        self.classes.append("apply:axis1")
-        # meta dtype: decided from the row upcast rule at run time (see _row_meta)
-        return {"op": "apply_rows", "func": fn, "args": [x, y], "meta": DTYPE_OF[out] if out != "str" else "object"}
+        st = {"op": "apply_rows", "func": fn, "args": [x, y], "meta": DTYPE_OF[out] if out != "str" else "object"}
+        return self._commit_series(st, "apply:axis1", out)
 
     def s_rename(self):
         r = self.r
@@ -890,24 +912,23 @@ class _G:
             return None
         w = r.random()
         self.uses_other = True
+        tag = "" if identical else ":partial-overlap"
         if w < 0.3:   # series (op) series -> series
             c, oc = self.pick(mine), self.pick(theirs)
             op = self.pick(["+", "-", "*", "/"])
-            swap = r.random() < 0.3
-            self.state = "series"
-            self.skind = "float" if not identical else self._numkind(op, self.cols[c], ocols[oc])
-            self.sprist = None
-            self.schemas.append(None)
-            self.classes.append("other:series-arith" + ("" if identical else ":partial-overlap"))
-            return {"op": "other", "mode": "series_bin", "col": c, "ocol": oc, "binop": op, "swap": swap}
+            st = {"op": "other", "mode": "series_bin", "col": c, "ocol": oc, "binop": op, "swap": r.random() < 0.3,
+                  "style": self.pick(["operator", "operator", "method"])}
+            kind = "float" if not identical else self._numkind(op, self.cols[c], ocols[oc])
+            return self._commit_series(st, "other:series-arith" + tag, kind)
         if w < 0.5:   # frame (op) frame
             sel = self.numcols()
             osel = r.sample(theirs, r.randint(1, min(3, len(theirs))))
             op = self.pick(["+", "-", "*"])
-            names = sorted(set(sel) | set(osel))
+            names = sorted(set(sel) | set(osel)) if set(sel) != set(osel) else sel
             out = {c: ("float" if not identical or c not in sel or c not in osel else self._numkind(op, self.cols[c], ocols[c])) for c in names}
-            return self._commit({"op": "other", "mode": "frame_bin", "cols": sel, "ocols": osel, "binop": op}, out,
-                                "other:frame-arith" + ("" if identical else ":partial-overlap"))
+            self._narrow(sel)
+            st = {"op": "other", "mode": "frame_bin", "ocols": osel, "binop": op, "style": self.pick(["operator", "operator", "method"])}
+            return self._commit(st, out, "other:frame-arith" + tag)
         if w < 0.7:   # assign a column of the other frame (left-aligned on the index)
             oc = self.pick(list(ocols))
             if ocols[oc] == "obj":
@@ -916,8 +937,7 @@ class _G:
             cols = dict(self.cols)
             cols[name] = ocols[oc] if identical else "obj"
             self.prist.discard(name)
-            return self._commit({"op": "other", "mode": "assign", "name": name, "ocol": oc}, cols,
-                                "other:assign" + ("" if identical else ":partial-overlap"))
+            return self._commit({"op": "other", "mode": "assign", "name": name, "ocol": oc}, cols, "other:assign" + tag)
         if w < 0.85 and identical:   # mask from the other frame
             oc = self.pick(theirs)
             st = {"op": "other", "mode": "mask", "ocol": oc, "cmpop": self.pick(list(_CMP)), "v": r.choice([0, 1, 2])}
@@ -925,35 +945,23 @@ class _G:
         if identical:   # where with `other` series from the other frame
             c, oc = self.pick(mine), self.pick(theirs)
             cond, _ = self.boolean(self.cols, 1)
-            self.state = "series"
-            self.skind = self._numkind("+", self.cols[c], ocols[oc])
-            self.sprist = None
-            self.schemas.append(None)
-            self.classes.append("other:where-other")
-            return {"op": "other", "mode": "where", "which": self.pick(["where", "mask"]), "col": c, "ocol": oc, "cond": cond}
+            st = {"op": "other", "mode": "where", "which": self.pick(["where", "mask"]), "col": c, "ocol": oc, "cond": cond}
+            return self._commit_series(st, "other:where-other", self._numkind("+", self.cols[c], ocols[oc]))
         return None
 
     # ---- series-level steps
-    def step_series(self):
+    def op_series(self):
         r = self.r
         w = r.random()
         leaf = (["self"], self.skind)
         if self.skind == "obj":
-            self.classes.append("series:rename")
-            self.schemas.append(None)
-            return {"op": "series", "expr": ["rename", ["self"], "renamed"]}
+            return self._commit_series({"op": "series", "expr": ["rename", ["self"], "renamed"]}, "rename:series", "obj")
         if w < 0.15:
             pred, _ = self.boolean({}, 0, leaf)
-            self.classes.append("filter:series")
-            self.schemas.append(None)
-            self.filtered = True
-            self.last_filter = len(self.schemas) - 1
-            return {"op": "sfilter", "pred": pred}
+            return self._commit_series({"op": "sfilter", "pred": pred}, "filter:series", self.skind, self.sprist, filt=True)
         if w < 0.25:
-            self.classes.append("series:rename")
-            self.schemas.append(None)
-            self.sname = "renamed"
-            return {"op": "series", "expr": ["rename", ["self"], self.pick(["renamed", "a", "z z"])]}
+            st = {"op": "series", "expr": ["rename", ["self"], self.pick(["renamed", "a", "z z"])]}
+            return self._commit_series(st, "rename:series", self.skind, self.sprist)
         if w < 0.33 and self.skind == "str":
             # split(expand=True) needs rows with exactly n separators: build them with cat(sep)
             sep = self.pick(["-", "_"])
@@ -962,38 +970,32 @@ class _G:
             for _ in range(n):
                 e = ["strcat", e, ["self"], sep]
             self.state = "frame"
-            self.cols = {str(i): "str" for i in range(n + 1)}
-            self.prist = set()
-            self.schemas.append(None)     # columns are integers 0..n: not addressable by later steps
-            self.classes.append("str:split-expand")
-            self.final_only = True
-            return {"op": "series", "expr": ["str", "split", e, [sep], {"n": n, "expand": True}]}
+            self.final_only = True      # columns are the integers 0..n: not addressed by later steps
+            return self._commit({"op": "series", "expr": ["str", "split", e, [sep], {"n": n, "expand": True}]},
+                                {}, "str:split-expand")
         e, k, kl = self.any_expr({}, leaf)
-        self.skind = k
-        self.sprist = None
-        self.schemas.append(None)
-        self.classes.append("series:" + kl)
-        return {"op": "series", "expr": e}
+        return self._commit_series({"op": "series", "expr": e}, "series:" + kl, k)
 
 
-def gen_pipeline(rng, ncols_info=None, nsteps=None, allow_other=True):
-    """-> JSON description {"steps": [...], "classes": [...], "uses_meta": bool, "uses_other": bool, "final": kind}"""
+def gen_pipeline(rng, ncols_info=None, nops=None, allow_other=True):
+    """-> JSON description {"steps": [...], "classes": [class of each step], "uses_meta": bool,
+    "uses_other": bool (apply() needs other=), "final": "frame"|"series"}; 2-5 operations (an operation on a typed
+    sub-frame is emitted as an explicit projection step plus the operation)."""
     info = _norm_info(ncols_info)
     if not allow_other:
         info["other"] = None
     g = _G(rng, info)
-    n = nsteps or rng.choice((2, 2, 3, 3, 4, 5))
-    steps = []
-    g.final_only = False
+    n = nops or rng.choice((2, 2, 3, 3, 4, 5))
     for _ in range(n):
         if g.final_only:
             break
         if g.state == "frame":
-            steps.append(g.step_frame())
+            g.op_frame()
         else:
-            steps.append(g.step_series())
-    return {"steps": steps, "classes": g.classes, "uses_meta": g.uses_meta, "uses_other": g.uses_other,
-            "final": g.state}
+            g.op_series()
+    fk = dict(g.cols) if g.state == "frame" else {"": g.skind}
+    return {"steps": g.steps, "classes": g.classes, "uses_meta": g.uses_meta, "uses_other": g.uses_other,
+            "final": g.state, "final_kinds": fk, "nops": n}
 
 
 # --------------------------------------------------------------------------- evaluation
@@ -1094,25 +1096,18 @@ def ev(e, df, env):
     raise ValueError("unknown expression node %r" % (t,))
 
 
-def _binop_frame(x, op, y, style, table, names):
-    if style == "operator":
-        return table[op](x, y)
-    if style == "reversed":
-        return table[op](y, x)
-    nm = names[op]
-    return getattr(x, ("r" + nm) if style == "rmethod" else nm)(y)
-
-
 _ANAMES = {"+": "add", "-": "sub", "*": "mul", "/": "truediv", "//": "floordiv", "%": "mod", "**": "pow"}
 _CNAMES = {"<": "lt", "<=": "le", ">": "gt", ">=": "ge", "==": "eq", "!=": "ne"}
 
 
-def apply(description, frame, is_dask, other=None):
-    """Run the steps of `description` on `frame` (dask collection when is_dask else pandas)."""
+def apply(description, frame, is_dask, other=None, upto=None):
+    """Run the steps of `description` on `frame` (dask collection when is_dask else pandas).  `other` is the second
+    frame needed when description["uses_other"]; `upto` limits the run to the first `upto` steps."""
     env = _Env(is_dask, other)
     states = [frame]
     cur = frame
-    for st in description["steps"]:
+    steps = description["steps"] if upto is None else description["steps"][:upto]
+    for st in steps:
         op = st["op"]
         if op == "project":
             cur = cur[list(st["cols"])]
@@ -1131,39 +1126,39 @@ def apply(description, frame, is_dask, other=None):
                 else:
                     kw[name] = ev(e, states[at], env)
             cur = cur.assign(**kw)
-        elif op == "frame_arith":
-            x = cur[list(st["cols"])]
-            cur = _binop_frame(x, st["binop"], _rhs(st["rhs"], cur, env), st["style"], _BIN, _ANAMES) \
-                if st["rhs"]["kind"] != "series" else getattr(x, _ANAMES[st["binop"]])(_rhs(st["rhs"], cur, env), axis=0)
-        elif op == "frame_cmp":
-            x = cur[list(st["cols"])]
-            cur = _binop_frame(x, st["cmpop"], _rhs(st["rhs"], cur, env), st["style"], _CMP, _CNAMES) \
-                if st["rhs"]["kind"] != "series" else getattr(x, _CNAMES[st["cmpop"]])(_rhs(st["rhs"], cur, env), axis=0)
+        elif op in ("frame_arith", "frame_cmp"):
+            table, names, o = (_BIN, _ANAMES, st["binop"]) if op == "frame_arith" else (_CMP, _CNAMES, st["cmpop"])
+            rhs = st["rhs"]
+            if rhs["kind"] == "series":
+                cur = getattr(cur, names[o])(ev(rhs["expr"], states[rhs["at"]], env), axis=0)
+            else:
+                y = rhs["v"] if rhs["kind"] == "scalar" else cur[list(rhs["cols"])]
+                style = st["style"]
+                if style == "operator":
+                    cur = table[o](cur, y)
+                elif style == "reversed":
+                    cur = table[o](y, cur)
+                else:
+                    cur = getattr(cur, ("r" + names[o]) if style == "rmethod" else names[o])(y)
         elif op == "astype":
-            if st["cols"] is not None:
-                cur = cur[list(st["cols"])]
             cur = cur.astype(st["spec"])
         elif op == "fillna":
-            if st["cols"] is not None:
-                cur = cur[list(st["cols"])]
             cur = cur.fillna(st["value"])
         elif op == "where":
-            x = cur[list(st["cols"])]
             c = st["cond"]
-            cond = _CMP[c["op"]](x, c["v"]) if c["kind"] == "frame_cmp" else ev(c["expr"], cur, env)
+            cond = _CMP[c["op"]](cur, c["v"])
             o = st["other"]
-            args = () if o["kind"] == "none" else ((o["v"],) if o["kind"] == "scalar" else (x * o["v"],))
-            kw = {"axis": 0} if c["kind"] == "series" and not is_dask else {}
-            cur = getattr(x, st["which"])(cond, *args, **kw)
+            args = () if o["kind"] == "none" else ((o["v"],) if o["kind"] == "scalar" else (cur * o["v"],))
+            cur = getattr(cur, st["which"])(cond, *args)
         elif op == "isin":
-            cur = cur[list(st["cols"])].isin(list(st["values"]))
+            cur = cur.isin(list(st["values"]))
         elif op == "clip":
             kw = {}
             if st["lower"] is not None:
                 kw["lower"] = st["lower"]
             if st["upper"] is not None:
                 kw["upper"] = st["upper"]
-            cur = cur[list(st["cols"])].clip(**kw)
+            cur = cur.clip(**kw)
         elif op == "apply_rows":
             kw = {"meta": (None, st["meta"])} if is_dask else {}
             cur = cur.apply(FUNCS[st["func"]], axis=1, args=tuple(st["args"]), **kw)
@@ -1183,14 +1178,6 @@ def apply(description, frame, is_dask, other=None):
     return cur
 
 
-def _rhs(rhs, cur, env):
-    if rhs["kind"] == "scalar":
-        return rhs["v"]
-    if rhs["kind"] == "frame":
-        return cur[list(rhs["cols"])]
-    return ev(rhs["expr"], cur, env)
-
-
 def _other_step(st, cur, env):
     o = env.other
     if o is None:
@@ -1198,16 +1185,18 @@ def _other_step(st, cur, env):
     mode = st["mode"]
     if mode == "series_bin":
         x, y = cur[st["col"]], o[st["ocol"]]
-        return _BIN[st["binop"]](y, x) if st["swap"] else _BIN[st["binop"]](x, y)
+        if st["swap"]:
+            x, y = y, x
+        return _BIN[st["binop"]](x, y) if st["style"] == "operator" else getattr(x, _ANAMES[st["binop"]])(y)
     if mode == "frame_bin":
-        return _BIN[st["binop"]](cur[list(st["cols"])], o[list(st["ocols"])])
+        y = o[list(st["ocols"])]
+        return _BIN[st["binop"]](cur, y) if st["style"] == "operator" else getattr(cur, _ANAMES[st["binop"]])(y)
     if mode == "assign":
         return cur.assign(**{st["name"]: o[st["ocol"]]})
     if mode == "mask":
         return cur[_CMP[st["cmpop"]](o[st["ocol"]], st["v"])]
     if mode == "where":
-        env2 = env
-        return getattr(cur[st["col"]], st["which"])(ev(st["cond"], cur, env2), o[st["ocol"]])
+        return getattr(cur[st["col"]], st["which"])(ev(st["cond"], cur, env), o[st["ocol"]])
     raise ValueError(mode)
 
 
